@@ -1321,3 +1321,244 @@ Lemma InvA_holder2 g g' ls t l l' :
   GS g' (at_ l') /\ mono g g' -> thr_ok g l' ->
   InvA g' (upd ls t l').
 Proof. intros ? ? ? ? ? [? ?] ?. eapply InvA_holder'; eauto. Qed.
+
+Lemma step_E_s1_some g it c nx0 p nxt :
+  GS g (E_s1 it c nx0 (Some p) nxt) ->
+  let g' := commit (setn g p (n_next (gnode g p) nxt)) (MErase c) in
+  GS g' (E_s2 it c nx0 (Some p) nxt) /\ mono g g'.
+Proof.
+  intros G. pose proof (gs_hold _ _ G) as Hh. cbn [hold_ok] in Hh. destruct Hh as (Hd & l1 & l2 & El & Hpv & Hnx).
+  assert (Hip : isnode g p = true).
+  { apply (gs_nodes _ _ G). rewrite El. apply in_or_app. left. apply last_opt_In. auto. }
+  destruct (set_next_views g p nxt Hip) as (EN & EB & ED & EP).
+  destruct (nviews_setn g p (n_next (gnode g p) nxt) Hip) as [VI VR VC VH VT VL VM VLo VHi VX].
+  apply step_E_s1_gen; auto.
+  - intros j Hj. rewrite EN. destruct (Nat.eqb_spec j p) as [->|]; [congruence|reflexivity].
+  - intros q Hq. inversion Hq; subst q. rewrite EN, Nat.eqb_refl. auto.
+  - discriminate.
+Qed.
+Lemma step_E_s1_none g it c nx0 nxt :
+  GS g (E_s1 it c nx0 None nxt) ->
+  let g' := commit (with_head g nxt) (MErase c) in
+  GS g' (E_s2 it c nx0 None nxt) /\ mono g g'.
+Proof.
+  intros G. apply step_E_s1_gen; auto. discriminate.
+Qed.
+
+(* ---------- the step lemma ---------- *)
+Ltac sameA_tac :=
+  repeat first [apply sameA_fault | apply sameA_misuse | apply sameA_zhead | apply sameA_zlog];
+  first [ apply sameA_refl | apply sameA_alloc_rec | apply sameA_destroy | apply sameA_dealloc | apply sameA_null
+        | (apply sameA_setz; eauto) | (apply sameA_construct_rec; eauto) ].
+Lemma InvA_step : forall g ls t c l g' l' es,
+  InvA g ls -> nth_error ls t = Some l -> tstep t c g l = Some (g', l', es) -> InvA g' (upd ls t l').
+Proof.
+  intros g ls t c l g' l' es I Hl Hs.
+  pose proof (a_thr _ _ I t l Hl) as Tt.
+  destruct l as [pr p h its0]. destruct p.
+  all: try (destruct (t_unl _ _ Tt eq_refl) as (w0 & z0 & Eh0); cbn [hnd] in Eh0; subst h).
+  all: step_cases2 Hs; fold_fst.
+  all: cbn [own_rec own_w hnd] in *.
+  all: destruct Tt as [T1 T2 T3 T4]; cbn [at_ hnd its nrefs pc_refs priv_rec in_unlock] in T1, T2, T3, T4.
+  all: pose proof (a_gs _ _ I) as G0.
+  (* R_alloc: the new cell is a record only in the new state *)
+  all: try match goal with |- InvA (fst (do_alloc ?gg (BRec drec))) (upd _ _ {| prog := _; at_ := R_constr _ _; hnd := _; its := _ |}) =>
+         eapply InvA_nonholder; [exact I|exact Hl|reflexivity|reflexivity|reflexivity|apply sameA_alloc_rec|];
+         apply thr_ok_intro; cbn [pc_refs priv_rec in_unlock];
+         [ intros c1 Hc1; apply (pubn_sameA _ _ _ (sameA_alloc_rec gg drec)); apply T1; apply in_or_app; left; exact Hc1
+         | intros c1 []
+         | intros z1 Hz1; inversion Hz1; subst z1; rewrite isrec_alloc, Nat.eqb_refl; reflexivity
+         | intros w1 z1 Hw1; apply (sa_isrec _ _ (sameA_alloc_rec gg drec)); eapply T3; exact Hw1
+         | discriminate ]
+       end.
+  (* steps of threads that do not hold the mutex and do not take it *)
+  all: try (eapply InvA_nonholder'; [exact I|exact Hl|reflexivity|cbn [at_]; rewrite ?holds_body, ?holds_reclaim; reflexivity| | | ];
+            [ autorewrite with wm; reflexivity
+            | sameA_tac
+            | ]).
+  all: try (apply thr_ok_intro; rewrite ?pc_refs_reclaim, ?priv_rec_reclaim, ?pc_refs_body, ?priv_rec_body, ?in_unlock_body;
+            cbn [its_refs flat_map pc_refs priv_rec in_unlock];
+            [ intros c1 Hc1; first [contradiction | apply T1; apply in_or_app; left; exact Hc1 | idtac]
+            | intros c1 Hc1; first [contradiction | idtac]
+            | intros z1 Hz1; first [discriminate | apply T2; exact Hz1 | idtac]
+            | intros w1 z1 Hw1; first [discriminate | eapply T3; exact Hw1 | idtac]
+            | intros Hu1; first [discriminate | eauto] ]).
+  (* an iterator value obtained from the iterator table *)
+  all: try (destruct Hc1 as [<-|[]]; apply T1; apply in_or_app; left; eapply getit_In; eassumption).
+  (* R_cas success *)
+  all: try (inversion Hw1; subst; apply T2; reflexivity).
+  (* new iterator values *)
+  all: try (apply its_refs_setit in Hc1; destruct Hc1 as [Hc1|Hc1]; [|apply T1; apply in_or_app; left; exact Hc1]).
+  all: try (eapply head_pubn; [exact G0|exact Hc1]).
+  all: try (eapply nx_pubn; [exact G0| |exact Hc1]; apply T1; apply in_or_app; right; left; reflexivity).
+  (* taking the write mutex *)
+  all: try (eapply InvA_lock; [exact I|exact Hl|reflexivity|reflexivity|reflexivity|assumption|];
+            apply thr_ok_intro; cbn [pc_refs priv_rec in_unlock];
+            [ intros c1 Hc1; apply T1; apply in_or_app; left; exact Hc1
+            | intros c1 Hc1; first [contradiction | apply T1; apply in_or_app; right; exact Hc1]
+            | discriminate | exact T3 | discriminate ]).
+  (* releasing it *)
+  all: try (eapply InvA_unlock; [exact I|exact Hl|reflexivity|reflexivity|reflexivity|];
+            apply thr_ok_intro; cbn [pc_refs priv_rec in_unlock];
+            [ intros c1 Hc1; first [ apply T1; apply in_or_app; left; exact Hc1
+                                   | apply its_refs_setit in Hc1; destruct Hc1 as [Hc1|Hc1];
+                                     [subst; apply T1; apply in_or_app; right; left; reflexivity|apply T1; apply in_or_app; left; exact Hc1] ]
+            | intros c1 []
+            | discriminate | exact T3 | discriminate ]).
+  (* steps of the mutex holder *)
+  all: destruct (hpc_holder _ _ _ _ I Hl eq_refl) as [Ehp Emt]; rewrite Ehp in G0; cbn [at_] in G0.
+  (* E_alloc: the new record cell *)
+  all: try match goal with |- InvA (fst (do_alloc ?gg (BRec drec))) _ =>
+         eapply InvA_holder; [exact I|exact Hl|reflexivity|reflexivity|reflexivity
+                             |eapply GS_frame; [apply sameA_alloc_rec|eapply GS_plain; [| |exact G0]; reflexivity]
+                             |apply mono_sameA, sameA_alloc_rec|];
+         apply thr_ok_intro; cbn [pc_refs priv_rec in_unlock];
+         [ intros c1 Hc1; apply (pubn_sameA _ _ _ (sameA_alloc_rec gg drec)); apply T1; apply in_or_app; left; exact Hc1
+         | intros c1 Hc1; apply (pubn_sameA _ _ _ (sameA_alloc_rec gg drec)); apply T1; apply in_or_app; right; exact Hc1
+         | intros z1 Hz1; inversion Hz1; subst z1; rewrite isrec_alloc, Nat.eqb_refl; reflexivity
+         | intros w1 z1 Hw1; apply (sa_isrec _ _ (sameA_alloc_rec gg drec)); eapply T3; exact Hw1
+         | discriminate ]
+       end.
+  all: eapply InvA_holder2; [exact I|exact Hl|reflexivity|reflexivity|autorewrite with wm; reflexivity| | ].
+  (* thread-local part: registers only shrink, except at E_ld0 *)
+  all: try (apply thr_ok_intro; cbn [pc_refs priv_rec in_unlock];
+            [ intros c1 Hc1; apply T1; apply in_or_app; left; exact Hc1
+            | intros c1 Hc1; first [ contradiction | apply T1; apply in_or_app; right; first [exact Hc1 | right; exact Hc1] | idtac ]
+            | intros z1 Hz1; first [discriminate | apply T2; exact Hz1]
+            | exact T3 | discriminate ]).
+  all: try (assert (pubn g c0) as Pc0 by (apply T1; apply in_or_app; right; left; reflexivity);
+            cbn [In o2l] in Hc1; destruct Hc1 as [<-|Hc1]; [exact Pc0|];
+            destruct (nnext (gnode g c0)) eqn:En; cbn [o2l In] in Hc1; [destruct Hc1 as [<-|[]]|contradiction];
+            eapply nx_pubn; [exact G0|exact Pc0|exact En]).
+  all: try (assert (pubn g c0) as Pc0 by (apply T1; apply in_or_app; right; left; reflexivity);
+            destruct (nnext (gnode g c0)) eqn:En; cbn [o2l In] in Hc1; [destruct Hc1 as [<-|[]]|contradiction];
+            eapply nx_pubn; [exact G0|exact Pc0|exact En]).
+  all: repeat apply GS_mono_fault.
+  all: cbn [at_].
+  all: try (apply (step_P_alloc g o _ _ G0); tauto).
+  all: try (apply (step_P_constr g o n (push_val o) G0)).
+  all: try (pose proof (step_P_ld _ _ _ G0) as G1;
+            repeat match goal with
+                   | H : is_front _ = _ |- _ => rewrite H in G1
+                   | H : head _ = _ |- _ => rewrite H in G1
+                   | H : tail _ = _ |- _ => rewrite H in G1
+                   end; apply GS_mono_refl; exact G1).
+  all: try (pose proof (step_P_e1 _ _ _ G0) as G1; cbn zeta in G1; rewrite Heqb in G1; exact G1).
+  all: try (apply (step_P_e2 _ _ G0)).
+  all: try (apply (step_PF_next _ _ _ G0)).
+  all: try (apply (step_PF_back _ _ _ G0)).
+  all: try (apply (step_PF_head _ _ G0)).
+  all: try (apply (step_PB_back _ _ _ G0)).
+  all: try (apply (step_PB_next _ _ _ G0)).
+  all: try (apply (step_PB_tail _ _ G0)).
+  all: try (apply GS_mono_refl; apply (step_E_ldb _ _ _ _ G0)).
+  all: try (apply GS_mono_refl; apply (step_E_ldn _ _ _ _ _ G0)).
+  all: try (eapply step_E_s2_some; [exact G0|reflexivity]).
+  all: try (eapply step_E_s2_none; [exact G0|reflexivity]).
+  all: try (eapply GS_mono_sameA; [ | | |exact G0]; [sameA_tac|reflexivity|reflexivity]).
+  all: try (assert (pubn g c0) as Pc0 by (apply T1; apply in_or_app; right; left; reflexivity)).
+  all: try match goal with H : ndel (gnode _ _) = true |- _ => destruct (step_E_ld0_noop _ _ _ G0 Pc0 H) as [_ Hn]; apply Hn; reflexivity end.
+  all: try match goal with H : ndel (gnode _ _) = false |- _ => apply (step_E_ld0_mark _ _ _ _ G0 Pc0 H) end.
+  all: try (apply (step_E_s1_some _ _ _ _ _ _ G0)).
+  all: try (apply (step_E_s1_none _ _ _ _ _ G0)).
+Qed.
+
+(* ---------- reachable states ---------- *)
+Definition R (unf : bool) (progs : list (list op)) (s : sysR) : Prop := reachable glob loc tstep (init unf progs) s.
+
+Lemma locof_init unf progs u : at_ (locof (thr (init unf progs)) u) = Idle /\ its (locof (thr (init unf progs)) u) = [] /\ hnd (locof (thr (init unf progs)) u) = None.
+Proof.
+  unfold locof, init. cbn [thr]. rewrite nth_error_map. destruct (nth_error progs u); cbn; auto.
+Qed.
+
+Lemma InvA_init unf progs : InvA (gl (init unf progs)) (thr (init unf progs)).
+Proof.
+  assert (P : forall u, pcof (thr (init unf progs)) u = Idle) by (intros u; apply locof_init).
+  constructor.
+  - intros u. rewrite P. discriminate.
+  - intros a H. discriminate.
+  - unfold hpc. cbn [gl init init_glob wmtx]. constructor; cbn; try tauto.
+    + constructor.
+    + split; [reflexivity|exact I].
+    + intros k H. unfold isnode, getc in H. cbn in H. destruct k; discriminate.
+    + intros k m [H _]. unfold isnode, getc in H. cbn in H. destruct k; discriminate.
+    + split; [lia|]. intros k H. unfold isnode, getc in H. cbn in H. destruct k; discriminate.
+  - intros u l Hu. cbn [thr init] in Hu. rewrite nth_error_map in Hu. destruct (nth_error progs u); [|discriminate].
+    cbn in Hu. inversion Hu; subst l. constructor; cbn; try discriminate; intros ? [].
+Qed.
+
+Lemma R_InvA unf progs s : R unf progs s -> InvA (gl s) (thr s).
+Proof. intros H. eapply reachable_inv; [apply InvA_step|apply InvA_init|exact H]. Qed.
+
+(* ---------- consequences ---------- *)
+(* the chain followed from m_head is exactly the abstract list *)
+Lemma chain_chn g l : forall fuel h, (length l < fuel)%nat -> h = hd_opt l -> chn g l None -> chain fuel g h = l.
+Proof.
+  induction l as [|a r IH]; intros fuel h Hf Hh Hc.
+  - subst h. destruct fuel; reflexivity.
+  - destruct fuel; [cbn in Hf; lia|]. subst h. cbn [hd_opt hd_or chain]. f_equal.
+    cbn [chn] in Hc. destruct Hc as [Ha Hc]. apply IH; [cbn in Hf; lia| |exact Hc].
+    exact Ha.
+Qed.
+Lemma NoDup_length_le (l : list nat) n : NoDup l -> (forall k, In k l -> (k < n)%nat) -> (length l <= n)%nat.
+Proof.
+  intros ND H. assert (incl l (seq 0 n)) as Hi by (intros k Hk; apply in_seq; specialize (H k Hk); lia).
+  pose proof (NoDup_incl_length ND Hi) as L. rewrite seq_length in L. exact L.
+Qed.
+Lemma contents_lst g p : GS g p -> contents g = lst g.
+Proof.
+  intros G. unfold contents. destruct (gs_fwd _ _ G) as [A B]. apply chain_chn; auto.
+  assert (length (lst g) <= nheap g)%nat.
+  { apply NoDup_length_le; [apply (gs_nodup _ _ G)|]. intros k Hk. eapply lst_lt; eauto. }
+  unfold nheap in *. lia.
+Qed.
+
+(* C12, writers serialised: the abstract list is the sequential replay of the mutators in the order
+   in which they took effect, and it is what a traversal from m_head sees *)
+Lemma writers_serial unf progs s : R unf progs s ->
+  lst (gl s) = fold_left apply_m (mlog (gl s)) [] /\ contents (gl s) = lst (gl s) /\ NoDup (lst (gl s)).
+Proof.
+  intros HR. pose proof (a_gs _ _ (R_InvA _ _ _ HR)) as G.
+  repeat split; [apply (gs_mlog _ _ G)|eapply contents_lst; eauto|apply (gs_nodup _ _ G)].
+Qed.
+
+(* every change of the mutator log is made by the thread that owns the write mutex *)
+Lemma mlog_under_mutex t c g l g' l' es :
+  tstep t c g l = Some (g', l', es) -> mlog g' <> mlog g -> holds (at_ l) = true.
+Proof.
+  intros Hs Hm. destruct l as [pr p h its0]. destruct p; try reflexivity; exfalso; apply Hm; clear Hm.
+  all: unfold tstep in Hs; cbn [at_ prog hnd its] in Hs.
+  all: repeat match type of Hs with
+         | context [chk ?b _ _] => destruct b eqn:?; cbn [chk] in Hs
+         | context [match ?x with _ => _ end] => destruct x eqn:?; cbn [at_ prog hnd its] in Hs
+         | context [if ?x then _ else _] => destruct x eqn:?; cbn [at_ prog hnd its] in Hs
+         end; try discriminate; inversion Hs; subst; clear Hs; try reflexivity.
+  all: repeat match goal with
+         | H : ?f = (?g1, ?es) |- _ => is_var g1;
+           let E1 := fresh in assert (g1 = fst f) as E1 by (rewrite H; reflexivity); clear H; subst g1
+         end.
+  all: cbn [mlog with_fault with_zlog with_zhead].
+  all: try apply modc_fields.
+  all: try apply construct_fields.
+  all: try apply destroy_fields.
+  all: try apply dealloc_fields.
+  all: try (etransitivity; [apply modc_fields|]; reflexivity).
+  all: reflexivity.
+Qed.
+Lemma mutator_holds_mutex unf progs s t c l g' l' es :
+  R unf progs s -> nth_error (thr s) t = Some l -> tstep t c (gl s) l = Some (g', l', es) ->
+  mlog g' <> mlog (gl s) -> wmtx (gl s) = Some t.
+Proof.
+  intros HR Hl Hs Hm. apply (a_own _ _ (R_InvA _ _ _ HR)). rewrite (pcof_at _ _ _ Hl).
+  eapply mlog_under_mutex; eauto.
+Qed.
+
+(* C12, traversals: following next from a published node leads to a published node further down
+   the global position order *)
+Lemma next_forward unf progs s k m : R unf progs s ->
+  pubn (gl s) k -> nx (gl s) k = Some m -> pubn (gl s) m /\ ps (gl s) k < ps (gl s) m.
+Proof. intros HR. apply (gs_next _ _ (a_gs _ _ (R_InvA _ _ _ HR))). Qed.
+
+(* every node reference a thread holds (iterator slots, registers) is a published node *)
+Lemma refs_published unf progs s t l c : R unf progs s -> nth_error (thr s) t = Some l -> In c (nrefs l) -> pubn (gl s) c.
+Proof. intros HR Hl. apply (t_refs _ _ (a_thr _ _ (R_InvA _ _ _ HR) t l Hl)). Qed.
